@@ -5,11 +5,12 @@ import evgen
 
 id = "C11"
 engine = "combinators"
-coq_imports = ["Model.Base", "Model.Events", "Model.Contract", "Model.Normalize", "Check.C11Check"]
+coq_imports = ["Model.Base", "Model.Events", "Model.Contract", "Model.Normalize", "Proofs.NormalizeP2", "Check.C11Check"]
 case_type = "ncase"
 model_name = "Normalize.nrun"
 monitor_name = "C11Check.c11_ok"
-sub_names = {1: "events handed to the inner writer during each handle_event call"}
+sub_names = {1: "events handed to the inner writer during each handle_event call",
+             2: "the queue-discipline hypothesis of the lossless theorems (implied by the contract) holds on this stream"}
 rule = ("cases = 1-3 generated features (rules, backgrounds, retries, hooks, logs, parser errors) x a random linearisation of their "
         "events that respects the Runner contract: 20% already sequential, 40% runner-like (brackets opened lazily, up to 4 attempts "
         "in flight), 40% wild (any interleaving the contract allows: several features open, rule and top-level scenarios "
